@@ -47,12 +47,22 @@ detail in a library call: 9 / 0 / 4 / 7 again (i01 and i12 are the same edit, ma
 independently for two properties).  An eighth round of 20 (ids jNN; kinds: stale value
 across a suspension, exception handling, sibling paths diverging, plumbing of an argument,
 defaults and precedence), run after the rules had been restated semantically (12.6, 12.7):
-14 / 1 / 3 / 2 - the exit 2 was C14 R4 losing its anchor on j04, rewritten since.  Every miss
-led to a rule (often one shared between properties whose statements overlap); all 141 are
-now caught by their target.  The first-pass rate did not improve between rounds: independently written
-breakages keep finding clauses no rule covered yet - the honest reading is that a new
-change has roughly an even chance of hitting an existing rule, and that the 141 stored
-ones are regression tests, not a coverage measure.
+14 / 1 / 3 / 2 - the exit 2 was C14 R4 losing its anchor on j04, rewritten since.  A ninth
+round of 20 (ids kNN; kinds: "optimisation", coroutine / callback mechanics, type or
+representation, a condition "simplified", order of statements, "dead code" removed, a
+modernisation gone wrong, copy-paste, scope of a block, a small feature with a side effect):
+16 / 1 / 1 / 2 - the exit 2 was C01 R3 not recognising `list(self.processes.values())[:-n]`
+as a surplus selection (it now reads the unsorted table as oldest-first and names the
+negative bound), the "other" was k11, which C18 R3 caught through a text comparison (now a
+CFG obligation shared as C11 R8), and the two misses gave C07 R7 / C12 R10 (which names can
+reach the set reloadconfig disposes of, by evaluating the set algebra including the
+comprehension filters) and C20 R6 (a rollover removes only the destination of the rename
+that follows).  Every miss led to a rule (often one shared between properties whose
+statements overlap); all 161 are now caught by their target.  Through round 7 the first-pass
+rate stayed near one in two; rounds 8 and 9, after the rules were restated on values and
+paths, reached 14 and 16 of 20.  The honest reading is still that independently written
+breakages keep finding clauses no rule covers - three or four in twenty - and that the 161
+stored ones are regression tests, not a coverage measure.
 
 | id | property | change | needs, to manifest | caught by |
 |---|---|---|---|---|
